@@ -18,7 +18,7 @@ RULE = ('cases = protocol state (6, reached by a canonical prefix on the real lo
         'seeded segmentation; non-trivial = the stream is not a valid PDU sequence under R-codec '
         '(unrecognised, malformed, DIMSE-level garbage or incomplete); distinct = distinct '
         '(state, base, operator, ending)'
-        '; states incl. the release-collision states Sta9-Sta12; floods with a non-consuming user; FIN right behind the last byte; peer-announced maximum 1..6 followed by a local send (real association layer); reactions judged under FIN right behind the last byte; behind family: valid PDUs + invalid PDU in one segment + FIN; FIN at the moment of ARTIM expiry')
+        '; states incl. the release-collision states Sta9-Sta12; floods with a non-consuming user; FIN right behind the last byte; peer-announced maximum 1..6 followed by a local send (real association layer); reactions judged under FIN right behind the last byte; behind family: valid PDUs + invalid PDU in one segment + FIN; FIN at the moment of ARTIM expiry; deaf: a peer that sends PDUs to be answered and never reads, on a connection with a time-out')
 ASSUMPTIONS = ['two-branch reaction oracle: a PDU that is malformed under a strict reading may be '
                'treated as invalid (Evt19 row) or leniently as its own type; valid PDUs and '
                'DIMSE-level garbage are only required not to crash/hang and to end orderly',
@@ -91,6 +91,13 @@ def cases(tier, seed):
             for e in ENDINGS:
                 yield dict(state=st, base='echo', op=['flood', nmsg], ending=e,
                            seed=seed * 7 + i)
+    # deaf: the peer keeps sending PDUs that each have to be answered (A-ABORT) and never reads;
+    # the connection has a time-out (set by the application on the socket, or process-wide), so
+    # the write that finds the buffers full fails with socket.timeout in the middle of an action
+    for st in sorted(STATES):
+        for j, (cap, tmo) in enumerate([(25, 2.0), (12, 0.5), (64, 5.0)]):
+            yield dict(state=st, base='echo', op=['deaf', 8 + 4 * j], ending=ENDINGS[(j + seed) % 3],
+                       deaf=[cap, tmo], seed=seed * 13 + j)
     # a syntactically valid A-ASSOCIATE-RQ / -AC whose Maximum Length value (1..6) cannot carry a
     # single payload byte, after which the LOCAL side has something to send
     for role in ('requestor', 'acceptor'):
@@ -146,6 +153,8 @@ def _stream(case):
         return b
     if op[0] == 'flood':
         return mutate.BASES['echo'] * op[1] + rc.enc_pdu(0x5A, b'junk')
+    if op[0] == 'deaf':
+        return rc.enc_pdu(0x5A, b'junk') * op[1]
     if op[0] == 'flip':
         b = base
         for _ in range(rnd.randint(1, 3)):
@@ -360,6 +369,12 @@ def run_case(case):
         cuts = sorted(rnd.sample(range(1, len(stream)), min(k, len(stream) - 1))) \
             if len(stream) > 1 else []
         prev = 0
+        deaf = case.get('deaf')
+        if deaf and rig.prov_sock is not None:
+            rig.wire_take()
+            rig.prov_sock.tx.capacity = deaf[0]
+            rig.prov_sock.settimeout(deaf[1])
+            rig.sim.bump('fault.peer_deaf_and_socket_timeout')
         model0 = drv.model.clone()
         t_inj = rig.sim.now
         wire0 = len(rig.wire_bytes)
@@ -394,10 +409,13 @@ def run_case(case):
             return _fin(res, drv, case, nontrivial)
         if not settled:
             v('never-quiescent blocked=%s' % rig.task.kind, 'stream %s' % stream.hex()[:200])
+        if deaf:
+            wrem = b''      # (a write cut short by the time-out is no PDU of the library's making)
         if wrem or 'MALFORMED' in wire_kinds:
             v('emitted-malformed-pdu', 'wire %r rem %r' % (wire_kinds, wrem))
         # two-branch reaction oracle
-        br = _branches(model0, framed) if not rst_now and case['op'][0] != 'flood' else None
+        br = _branches(model0, framed) if not rst_now and case['op'][0] not in ('flood', 'deaf') \
+            else None
         if br is not None and fin_now:
             # the peer has half-closed right behind its last byte (it still reads): every
             # complete PDU it sent before is reacted to first, then the closing is noticed
@@ -459,6 +477,8 @@ def run_case(case):
         rig.settle()
         rig.wire_take()
         pdus2, wrem2 = rc.parse_stream(rig.wire_bytes[wire0:])
+        if deaf:
+            wrem2 = b''
         if wrem2 or any(p['kind'] == 'MALFORMED' for p in pdus2):
             v('emitted-malformed-pdu', 'wire %r' % [p['kind'] for p in pdus2])
         if rig.loop_dead():
